@@ -12,6 +12,7 @@ import os
 import time
 
 import fmtgen
+import testcorpus
 import verif as V
 
 
@@ -47,12 +48,18 @@ def run(pid, tier, seed):
     nf = 0
     if pid == "C08":
         fmts = fmtgen.formats(seed, 2500 if tier == "quick" else 60000)
+        # + every format string the repository's own tests use (inputs only)
+        hf = testcorpus.harvest(V.REPO)[0]
+        fmts = fmts + [f for f in hf if f not in set(fmts)]
         dele = delegated(work, [f for f in fmts if 0 not in f], verdict)
         for f in fmts:
             lines.append("F %s %s" % (f.hex() or "-", " ".join(d.hex() for d in dele.get(f, []))))
         nf = len(fmts)
     else:
         fmts = fmtgen.lossless(seed, 1500 if tier == "quick" else 40000)
+        # + the formats of the repository's tests: FormatTrace!Lossless decides which of them the property covers
+        hf = testcorpus.harvest(V.REPO)[0]
+        fmts = fmts + [f for f in hf if f not in set(fmts)]
         lines = ["L %s" % f.hex() for f in fmts]
         nf = len(fmts)
     inp = os.path.join(work, "in.txt")
